@@ -2629,6 +2629,10 @@ func (t *Terminal) printInfoImpl() {
 	if fillLength > 0 {
 		t.window.CPrint(tui.ColSeparator, " ")
 		printSeparator(fillLength, false)
+	} else if fillLength == 0 {
+		// No room for the separator, but the column may still hold the last
+		// character of the previous message that was one character longer
+		t.window.Print(" ")
 	}
 }
 
